@@ -30,7 +30,12 @@ try:
                     orig = m.group(0)
                     f.write_text(t.replace(orig, str(wt)).replace(str(seed), str(d)))
         txt = (d / "demo.sh").read_text()
-        arg = f"{wt}/_b" if re.search(r"build dir|BUILD=\$\{?1|\$1/gama-local", txt) else f"{wt}/_b/gama-local"
+        if re.search(r"SRC=\$\{?1|SRC=\"?\$\{1", txt):
+            arg = f"{wt}"
+        elif re.search(r"build dir|BUILD=\$\{?1|BLD=\$\{?1|\$1/gama-local", txt):
+            arg = f"{wt}/_b"
+        else:
+            arg = f"{wt}/_b/gama-local"
         r = sh(f"cd {d} && sh demo.sh {arg} 2>&1", timeout=1800)
         shutil.rmtree(d, ignore_errors=True)
         return r.returncode, r.stdout[-600:]
